@@ -38,6 +38,7 @@ class TradingHaltRule(EventABC):
         self.is_enabled: bool = True
         self.halting_time_length: int = 1
         self.halting_time_started: int = 0
+        self.halted_sessions: Dict[int, Session] = {}
         self.activation_count: int = 0
         self.target_markets: Dict[str, Market] = {}
         self.trigger_change_rate: float = 0.0
@@ -119,6 +120,7 @@ class TradingHaltRule(EventABC):
                         if simulator.current_session is None:
                             raise AssertionError
                         simulator.current_session.with_order_execution = False
+                        self.halted_sessions[m.market_id] = simulator.current_session
 
     def hooked_before_step_for_market(
         self, simulator: Simulator, market: Market
@@ -130,6 +132,13 @@ class TradingHaltRule(EventABC):
                 if m == market:
                     if simulator.current_session is None:
                         raise AssertionError
+                    if m.market_id not in self.halted_sessions:
+                        # this rule has not halted the market: nothing to resume
+                        continue
+                    halted_session = self.halted_sessions.pop(m.market_id)
+                    if simulator.current_session is not halted_session:
+                        # the halted session is over; the switches of the new session apply
+                        continue
                     simulator.current_session.with_order_execution = True
                     m._is_running = True
                     self.halting_time_started = 0
